@@ -351,3 +351,20 @@ def r10_11(rep):
                   "neither the %s arm nor the generator it calls looks at `is_opaque`: a type of this kind marked opaque is emitted in full" % "|".join(kinds),
                   tb.loc(body))
     rep.need(n >= 4, "defining arms of Type::codegen (Comp, Alias, Enum, ..)")
+
+
+@RULES.rule("R10.12", "a pattern with a top-level `|` is anchored as a whole (shared with C09 R9.4)", floor=30)
+def r10_12(rep):
+    """`--blocklist-type 'Vec|Mat'` must hide exactly `Vec` and `Mat`.  Anchoring the pattern as `^Vec|Mat$` instead of `^(Vec|Mat)$`
+    also hides `VecPair` and `AffineMat`, which are then named and never defined (seeded change).  Same rule instance as R9.4."""
+    import c09
+    c09.r9_4(rep)
+
+
+@RULES.rule("R10.13", "what a blocklisted item refers to stays part of the closure (shared with C09 R9.6)", floor=17)
+def r10_13(rep):
+    """A use of a blocklisted template still spells its arguments (`RefPtr<Payload>`); the instantiation counts as blocklisted because
+    its name is the template's.  The codegen traversal must walk through it, so `codegen_edges` may only look at the edge kind:
+    refusing edges into blocklisted items dropped `Payload` from the bindings in a seeded change (E0425)."""
+    import c09
+    c09.r9_6(rep)
